@@ -29,7 +29,8 @@ CPES = ("named_curve", "explicit")
 DOCUMENTED = ("UnexpectedDER", "MalformedPointError", "UnknownCurveError", "ValueError")
 # SigningKey.to_der leaves the generator of explicit parameters uncompressed and from_der ignores the [1] public key,
 # so the three point forms of a private key with explicit parameters differ only in bytes the decoder never reads:
-# one form per container is damaged (the others cost ~25 ms per accepted mutant on the 512/521-bit curves)
+# one form per container is damaged (the others cost ~25 ms per accepted mutant on the 512/521-bit curves);
+# the thorough tier damages all forms on the curves up to 256 bits
 SKIP_DAMAGE = ("sec1/explicit/compressed", "sec1/explicit/hybrid", "pkcs8/explicit/uncompressed", "pkcs8/explicit/hybrid")
 CPU_LIMIT_S = 120           # CPU seconds (ITIMER_VIRTUAL, not wall clock) for one decoder call
 
@@ -659,7 +660,7 @@ def run(tier):
                 d = keys[cname][0][1]
                 be = _base_encodings(cname, d)
                 for label, (dec, layer, base) in be.items():
-                    if label in SKIP_DAMAGE:
+                    if label in SKIP_DAMAGE and not (th and _flen(_curve(cname)) <= 32):
                         continue
                     bases[(cname, label)] = (dec, layer, base)
                     plan = [("trunc", k, 0) for k in range(len(base))]
@@ -884,7 +885,7 @@ def run(tier):
                       {"by_op": {k: cnt.get(k, 0) for k in ("ossl", "odec", "curve")}, "openssl_invocations": ossl.total,
                        "validated_in": "same TLC run as Trace_KeyEnc/encodings", "damaged_points_on_curve_per_openssl": n_curve_ok})
         rep.add_trace("Trace_KeyEnc/damaged (every truncation, extensions, single-byte mutations through from_der/from_pem/from_string)", {},
-                      cnt.get("mut", 0), True, {"curves": mcurves, "encodings_per_curve": len(bases) // len(mcurves), "outcomes": mstat,
+                      cnt.get("mut", 0), True, {"curves": mcurves, "encodings": len(bases), "outcomes": mstat,
                                                 "validated_in": "same TLC run as Trace_KeyEnc/encodings"})
         rep.cov["keys"] = {c: [k for k, _ in v] for c, v in keys.items()}
         for pred in (lambda e: e["op"] == "enc" and e["kind"] == "pkcs8" and e["curve"] == "secp112r1" and e["cpe"] == "named_curve",
